@@ -861,11 +861,11 @@ func (ex *Exec) loopCandidates(f *Frame, act *loopAct, phis []*ssa.Phi) []loopCa
 			out = append(out, loopCand{nm + "<=init", func(get func(*ssa.Phi) Value) *Term { return Le(get(p).(*Term), e) }})
 			for _, ov := range comparedBounds(p, act.info) {
 				o := ov
-				if oi, ok := o.(ssa.Instruction); ok && act.info.body[oi.Block()] {
-					continue // recomputed in the loop: not available at the head
+				if ex.pureVal(f, o) == nil {
+					continue
 				}
-				out = append(out, loopCand{nm + "<" + o.Name(), func(get func(*ssa.Phi) Value) *Term { return Lt(get(p).(*Term), ex.val(f, o).(*Term)) }})
-				out = append(out, loopCand{nm + "<=" + o.Name(), func(get func(*ssa.Phi) Value) *Term { return Le(get(p).(*Term), ex.val(f, o).(*Term)) }})
+				out = append(out, loopCand{nm + "<" + o.Name(), func(get func(*ssa.Phi) Value) *Term { return Lt(get(p).(*Term), ex.pureVal(f, o)) }})
+				out = append(out, loopCand{nm + "<=" + o.Name(), func(get func(*ssa.Phi) Value) *Term { return Le(get(p).(*Term), ex.pureVal(f, o)) }})
 			}
 			// a pointer assigned in the loop is non-nil once the counter has moved
 			for _, q := range phis {
@@ -895,6 +895,43 @@ func (ex *Exec) loopCandidates(f *Frame, act *loopAct, phis []*ssa.Phi) []loopCa
 		}
 	}
 	return out
+}
+
+// pureVal evaluates a loop-invariant integer expression without relying on the
+// instruction having been executed (len/cap/convert/arithmetic of available values).
+func (ex *Exec) pureVal(f *Frame, v ssa.Value) *Term {
+	switch x := v.(type) {
+	case *ssa.Const:
+		t, _ := ex.constVal(x).(*Term)
+		return t
+	}
+	if r, ok := f.vals[v]; ok {
+		t, _ := r.(*Term)
+		return t
+	}
+	switch x := v.(type) {
+	case *ssa.Call:
+		if b, ok := x.Call.Value.(*ssa.Builtin); ok && (b.Name() == "len" || b.Name() == "cap") {
+			if a, ok := f.vals[x.Call.Args[0]]; ok {
+				switch s := a.(type) {
+				case SliceV:
+					if b.Name() == "len" {
+						return s.Len
+					}
+					return s.Cap
+				case StrV:
+					return s.Len
+				}
+			}
+		}
+	case *ssa.Convert:
+		if t := ex.pureVal(f, x.X); t != nil {
+			if ik, ok := intKindOf(x.Type()); ok {
+				return Wrap(t, ik)
+			}
+		}
+	}
+	return nil
 }
 
 // loopInvariant: v has the same value in every iteration (defined outside the loop,
